@@ -274,7 +274,12 @@ func init() {
 				ms := int(time.Since(t0) / time.Millisecond)
 				kind := pub.VerifProvenance(got)
 				out = putText(append(out, 0, ms, 3), kind)
-				out = append(out, 0)
+				// what the item looks like on the screen (full text and preview), for the text oracles of the model side
+				if t, ok := got.(pub.Tangible); ok {
+					out = putText(append(out, 1), t.String(60)+"\n"+t.Preview(30)+"\n"+t.Name())
+				} else {
+					out = append(out, 0)
+				}
 			case 6:
 				// a feed: splicer.NewSplicer over inputs fetched from the simulator, then Harvest through the continuation.
 				// args: ninputs universe indices..., a table (tag, stamp)* read by the model only, amounts
